@@ -71,7 +71,7 @@ class Profile:
     p_repeat_return: float = 0.0
 
 
-SALTS = [None, None, "", "s1", "exp_v1", "é", "a'b", 'x"y', "\\", "salt with spaces", "日本", "csdvs887", "%s{0}", "\\n"]
+SALTS = [None, None, "", "{kwargs}", "v-{kwargs!r}-{0}", "s1", "exp_v1", "é", "a'b", 'x"y', "\\", "salt with spaces", "日本", "csdvs887", "%s{0}", "\\n"]
 
 
 class ProgGen:
